@@ -136,3 +136,24 @@ Definition reparse_compact (p : program) : option parse_result :=
   | Some ts => parse_tokens cfg_default ts
   | None => None
   end.
+
+(* ---- pretty configurations ---- *)
+
+(* print under any configuration, lex the text, parse the tokens *)
+Definition reparse (cfg : wcfg) (p : program) : option parse_result :=
+  match tokenize (r_code (compile cfg p)) with
+  | Some ts => parse_tokens cfg_default ts
+  | None => None
+  end.
+
+(* no line of a multi-line literal ends with a blank: the pretty configurations trim the
+   end of every output line, also inside string and backtick literals (recorded finding KF3) *)
+Fixpoint blank_eol_free (s : str) : bool :=
+  match s with
+  | [] => true
+  | c :: s' => match s' with
+               | d :: _ => negb ((c =? 32)%N && (d =? 10)%N) && blank_eol_free s'
+               | [] => true
+               end
+  end.
+Definition literals_trim_safe (toks : list token) : bool := forallb (fun t => blank_eol_free (t_lit t)) toks.
